@@ -351,15 +351,10 @@ def sigops_charge(ctx: Ctx, rep: Report, rule: str) -> None:
     rep.ob(rule, "op_checksig:charged_whatever_the_key", not other, fi.where(ch),
            "no other condition on the charge" if not other else f"the charge also needs {other}: a non-empty signature beside another key type is checked for free")
     # the exhaustion test follows the charge, under the same guard
-    def _below_zero(t: ast.AST) -> bool:
-        """`budget < 0` or `0 > budget`."""
-        if not (isinstance(t, ast.Compare) and len(t.ops) == 1):
-            return False
-        l, op, r = t.left, t.ops[0], t.comparators[0]
-        return (isinstance(l, ast.Name) and l.id == ch.target.id and isinstance(op, ast.Lt) and isinstance(r, ast.Constant) and r.value == 0) or \
-            (isinstance(r, ast.Name) and r.id == ch.target.id and isinstance(op, ast.Gt) and isinstance(l, ast.Constant) and l.value == 0)
-    ex = [r for r in own_nodes(fi.node) if isinstance(r, ast.If) and any(isinstance(x, ast.Raise) for x in r.body) and _below_zero(r.test)]
-    okx = bool(ex) and ex[0].lineno > ch.lineno and g.facts_at_ast(ex[0].test) >= frozenset((t, True) for t in on_sig)
+    # the refusal of an exhausted budget, however it is spelled (flipped, or behind a name): the range extractor reads all three
+    cx = has_bound(refusal_constraints(ctx, fi), "<", 0, subject=ch.target.id)
+    ex = [cx.node] if cx is not None and cx.node is not None else []
+    okx = bool(ex) and getattr(ex[0], "lineno", 0) > ch.lineno and (cx.test_id < 0 or {t for t, pol in g.facts()[cx.test_id] if pol} >= set(on_sig))
     rep.ob(rule, "op_checksig:exhaustion", okx, fi.where(ex[0] if ex else ch), "refused when the budget falls below zero, right after the charge")
     rep.floor(rule, 4)
 
